@@ -23,23 +23,9 @@
 #include "MTest/ImposedThermodynamicForce.hxx"
 #include "C48/mock.hxx"
 #include "C48/mockbehaviour.hxx"
+#include "C48/mtrun.hxx"
 
 using namespace verif48;
-
-static std::shared_ptr<mtest::Evolution> read_evolution(Tokens& tk) {
-  const auto kind = tk.str();
-  if (kind == "c") {
-    return std::make_shared<mtest::ConstantEvolution>(tk.dbl());
-  }
-  if (kind != "l") throw std::runtime_error("bad-op");
-  const auto n = static_cast<std::size_t>(tk.integer());
-  std::vector<real> ts, vs;
-  for (std::size_t i = 0; i != n; ++i) {
-    ts.push_back(tk.dbl());
-    vs.push_back(tk.dbl());
-  }
-  return std::make_shared<mtest::LPIEvolution>(ts, vs);
-}
 
 static std::string eval_points(const mtest::Evolution& e, Tokens& tk) {
   const auto m = static_cast<std::size_t>(tk.integer());
@@ -196,77 +182,6 @@ static std::string op_cc(Tokens& tk) {
   const bool ok = m.checkConvergence(st, vdu, vr, o, 2u, t, dt);
   const auto diag = m.getFailedCriteriaDiagnostic(st, vdu, vr, o, t, dt);
   return std::string(ok ? "1" : "0") + " nd=" + std::to_string(diag.size());
-}
-
-/*
- * mt <ndv> <nl> D*(ndv*ndv) <eeps> <seps> <dyn> <mSub> <iterMax> <ppolicy>
- *    <nt> times*nt <nc> (g|f comp (c v | l k (t v)*k))*nc <ns> (ok factor)*ns
- * runs the real MTest (prepare, Newton with Lagrange multipliers, convergence test, sub-stepping)
- * on the mock behaviour; prints for each requested time the unknowns and forces at that time
- */
-static std::string op_mt(Tokens& tk) {
-  const auto ndv = static_cast<unsigned short>(tk.integer());
-  auto b = std::make_shared<MockBehaviour>();
-  b->ndv = ndv;
-  b->nl = tk.dbl();
-  b->D = tk.dbls(static_cast<std::size_t>(ndv) * ndv);
-  TMTest m;
-  m.install(b);
-  auto& o = m.opts();
-  o.eeps = tk.dbl();
-  o.seps = tk.dbl();
-  o.dynamic_time_step_scaling = tk.integer() != 0;
-  o.mSubSteps = static_cast<int>(tk.integer());
-  o.iterMax = static_cast<int>(tk.integer());
-  const auto pp = tk.integer();
-  o.ppolicy = (pp == 0) ? mtest::PredictionPolicy::NOPREDICTION
-                        : ((pp == 1) ? mtest::PredictionPolicy::LINEARPREDICTION
-                                     : mtest::PredictionPolicy::ELASTICPREDICTION);
-  o.ktype = mtest::StiffnessMatrixType::CONSISTENTTANGENTOPERATOR;
-  const auto nt = static_cast<std::size_t>(tk.integer());
-  const auto times = tk.dbls(nt);
-  const auto nc = static_cast<std::size_t>(tk.integer());
-  for (std::size_t i = 0; i != nc; ++i) {
-    const auto kind = tk.str();
-    const auto comp = static_cast<unsigned short>(tk.integer());
-    auto ev = read_evolution(tk);
-    if (kind == "g") {
-      m.push(std::make_shared<mtest::ImposedGradient>(comp, ev));
-    } else {
-      m.push(std::make_shared<mtest::ImposedThermodynamicForce>(comp, ev));
-    }
-  }
-  const auto ns = static_cast<std::size_t>(tk.integer());
-  for (std::size_t i = 0; i != ns; ++i) {
-    const auto ok = tk.integer() != 0;
-    b->script.push_back({ok, tk.dbl()});
-  }
-  const auto n = m.unknowns();
-  mtest::StudyCurrentState st;
-  mtest::SolverWorkSpace wk;
-  st.initialize(n);
-  auto& scs = st.getStructureCurrentState("");
-  scs.setBehaviour(b);
-  scs.setModellingHypothesis(tfel::material::ModellingHypothesis::TRIDIMENSIONAL);
-  scs.istates.resize(1);
-  b->allocateCurrentState(scs.istates[0]);
-  scs.istates[0].behaviour = b;
-  m.initializeWorkSpace(wk);
-  std::ostringstream out;
-  try {
-    for (std::size_t i = 0; i + 1 < nt; ++i) {
-      m.alog.str("");
-      m.execute(st, wk, times[i], times[i + 1]);
-      out << m.alog.str();
-      out << " T " << hex(times[i + 1]) << " u";
-      for (std::size_t j = 0; j != n; ++j) out << " " << hex(st.u0[j]);
-      out << " s";
-      for (unsigned short j = 0; j != ndv; ++j) out << " " << hex(scs.istates[0].s0[j]);
-    }
-    return "end period=" + std::to_string(st.period) + " sub=" + std::to_string(st.subSteps) + out.str();
-  } catch (std::exception& e) {
-    return "exc:" + classify(e) + out.str() + m.alog.str();
-  }
 }
 
 int main() {
